@@ -31,11 +31,11 @@ INSTS := \
  run_LD_none|gs::AdLD<BaseGraph::NoLabel> run_LD_int|gs::AdLD<int> run_LD_unsigned|gs::AdLD<unsigned> run_LD_double|gs::AdLD<double> \
  run_LD_char|gs::AdLD<char> run_LD_string|gs::AdLD<std::string> run_LD_struct|gs::AdLD<gs::SLabel> \
  run_LD_i8|gs::AdLD<signed$(SP)char> run_LD_u8|gs::AdLD<unsigned$(SP)char> run_LD_i16|gs::AdLD<short> run_LD_u16|gs::AdLD<unsigned$(SP)short> \
- run_LD_i64|gs::AdLD<long$(SP)long> run_LD_u64|gs::AdLD<unsigned$(SP)long$(SP)long> run_LD_float|gs::AdLD<float> \
+ run_LD_i64|gs::AdLD<long$(SP)long> run_LD_u64|gs::AdLD<unsigned$(SP)long$(SP)long> run_LD_float|gs::AdLD<float> run_LD_empty|gs::AdLD<gs::EmptyTag> \
  run_LU_none|gs::AdLU<BaseGraph::NoLabel> run_LU_int|gs::AdLU<int> run_LU_unsigned|gs::AdLU<unsigned> run_LU_double|gs::AdLU<double> \
  run_LU_char|gs::AdLU<char> run_LU_string|gs::AdLU<std::string> run_LU_struct|gs::AdLU<gs::SLabel> \
  run_LU_i8|gs::AdLU<signed$(SP)char> run_LU_u8|gs::AdLU<unsigned$(SP)char> run_LU_i16|gs::AdLU<short> run_LU_u16|gs::AdLU<unsigned$(SP)short> \
- run_LU_i64|gs::AdLU<long$(SP)long> run_LU_u64|gs::AdLU<unsigned$(SP)long$(SP)long> run_LU_float|gs::AdLU<float> \
+ run_LU_i64|gs::AdLU<long$(SP)long> run_LU_u64|gs::AdLU<unsigned$(SP)long$(SP)long> run_LU_float|gs::AdLU<float> run_LU_empty|gs::AdLU<gs::EmptyTag> \
  run_DM|gs::AdDM run_UM|gs::AdUM run_DW|gs::AdDW run_UW|gs::AdUW
 INSTNAMES := $(foreach i,$(INSTS),$(firstword $(subst |, ,$(i))))
 adapter = $(subst _SP_, ,$(word 2,$(subst |, ,$(filter $(1)|%,$(INSTS)))))
